@@ -1,3 +1,4 @@
 import Props.C08
 import Props.C19
 import Props.C15
+import Props.C05
